@@ -130,7 +130,10 @@ CONTRACTS = {
     ),
     "vsg.vhdlFile.utils.is_item": dict(
         types={"lAllObjects": "list[%s]" % ITEM, "iToken": "int"},
-        requires=["0 <= iToken", "iToken < len(lAllObjects)"],
+        requires=["0 <= iToken"],
+        # an index at or beyond the end of the list is an IndexError (as for object_value_is)
+        raises=["IndexError"],
+        raises_when={"IndexError": "iToken >= len(lAllObjects)"},
         returns="bool",
         ensures=["result == (type(lAllObjects[iToken]) == parser.item)"],
     ),
@@ -387,3 +390,30 @@ CONTRACTS.update(
         ),
     }
 )
+
+# ---------------------------------------------------------------------------------------------- the eight "part" loops (C19: no hang)
+# <x>_part.detect repeats <x>_item.detect until it makes no progress.  The item detectors (each a large dispatcher over the
+# classifiers of one syntactic category) have generated contracts (contracts/parser.py): they never return an index in front of the
+# one they were given nor beyond the list, and keep the length of the list.  PROVED here: the part loops terminate and have the
+# same shape.
+PART_ITEMS = {
+    "configuration_declarative_part": "configuration_declarative_item",
+    "package_body_declarative_part": "package_body_declarative_item",
+    "package_declarative_part": "package_declarative_item",
+    "process_declarative_part": "process_declarative_item",
+    "process_statement_part": "sequential_statement",
+    "sequence_of_statements": "sequential_statement",
+    "subprogram_declarative_part": "subprogram_declarative_item",
+    "subprogram_statement_part": "sequential_statement",
+}
+for _part, _item in sorted(PART_ITEMS.items()):
+    CONTRACTS["vsg.vhdlFile.classify.%s.detect" % _part] = dict(
+        types={"iToken": "int", "lObjects": "list[%s]" % ITEM},
+        requires=["0 <= iToken", "iToken <= len(lObjects)"],
+        returns="int",
+        modifies=["lObjects"],
+        raises=["ClassifyError", "IndexError"],
+        ensures=["result >= iToken", "result <= len(lObjects)", "len(lObjects) == len(old(lObjects))"],
+        # an iteration either moves strictly forward in a list of fixed length, or makes iLast == iCurrent (and is the last one)
+        loops={1: dict(invariant=["iToken <= iCurrent", "iCurrent <= len(lObjects)", "len(lObjects) == len(old(lObjects))"], decreases="2 * (len(lObjects) - iCurrent) + (1 if iLast != iCurrent else 0)")},
+    )
